@@ -737,7 +737,7 @@ fn record(path: &str, seed: u64, n: usize, kinds: &[String], huge: bool) {
         let big = huge && !filt && h % 8 == 3;
         let val = |r: &mut Rng| -> f32 { if filt { ((1.0 + r.unit()) * 2f64.powi(e0 + (r.below(2) as i32))) as f32 } else if big { r.float(124, 127) } else { r.float(-6, 10) } };
         // windows from one tick (1 us .. 1 min) up to 24 hours; never more, so that window_ticks * tick cannot overflow i64
-        let w_ticks: i64 = (match rng.below(4) { 0 => 1, 1 => rng.range(2, 50), 2 => rng.range(50, 1 << 16), _ => rng.range(1 << 16, 1 << 28) }).min(86_400_000_000_000 / tick);
+        let w_ticks: i64 = (match if filt && h % 6 == 1 { 3 } else { rng.below(4) } { 0 => 1, 1 => rng.range(2, 50), 2 => rng.range(50, 1 << 16), _ => rng.range(1 << 16, 1 << 28) }).min(86_400_000_000_000 / tick);
         let unit = match kind { "AccToState" => json!([1, -2]), "VelToState" => json!([1, -1]), "PosToState" => json!([1, 0]), _ => json!([rng.range(-3, 3), rng.range(-3, 3)]) };
         let cmd0 = (rng.below(3) as i64, if big { rng.float(124, 127) } else { rng.float(-4, 6) });
         let gains: Vec<Value> = (0..3).map(|_| json!({"kp": rng.float(-3, 3), "ki": rng.float(-3, 3), "kd": rng.float(-3, 3)})).collect();
@@ -761,10 +761,13 @@ fn record(path: &str, seed: u64, n: usize, kinds: &[String], huge: bool) {
         let mut now_ticks: i64 = 0;
         let mut hist: Vec<(i64, f64)> = vec![];   // present samples since the last reset of this kind (for the f64 reference)
         let resets_on_none = matches!(kind, "PID" | "Integral" | "Derivative" | "CmdPID");
-        let len = 8 + rng.below(57) as usize;
+        // every sixth history of a filter is LONG AND CLEAN: 64 present samples, no absent or error events, the largest window - so that
+        // many more samples than any small constant share one window
+        let clean = filt && h % 6 == 1;
+        let len = if clean { 64 } else { 8 + rng.below(57) as usize };
         for _ in 0..len {
             // draw an event
-            let roll = rng.below(100);
+            let roll = if clean { 20 } else { rng.below(100) };
             let is_cmdpid = kind == "CmdPID";
             let mut ev = if is_cmdpid && roll < 10 {
                 // same command / other kind / other value / the NEIGHBOURING float of the current value (a different command all the same)
